@@ -2,6 +2,7 @@ package main
 
 import (
 	"fmt"
+	"regexp"
 	"go/ast"
 	"go/constant"
 	"go/token"
@@ -415,6 +416,27 @@ var trConfs = []trConf{
 			"jailed, err := k.IsJailed(ctx, valAddr)":     {"err := if val.jailedErr then 8 else 0", "let jailed := val.jailed"},
 			"g.Add( k.Jail(ctx, valAddr, types.JailReasonPigeonInactive), )": {"jailedNow := jailedNow ++ [val.id]"}},
 		returns: map[string]string{"return err": ".aborted err jailedNow", "return g.Return()": ".swept jailedNow"}},
+	{key: "x/consensus.AppModule.EndBlock", lean: "consensusEndBlock", ret: "EndBlockOutcome",
+		prelude: "/-- how an end blocker ended: it came back with `nil` (`returned`) or with an error that fails the block (`failed`); in both cases the phases it ran, in order -/\ninductive EndBlockOutcome where\n  | returned (phases : List String) | failed (phases : List String)\nderiving DecidableEq, Repr",
+		params: []trParam{{"height", "Int"}, {"estimateFails", "Bool"}, {"attestFails", "Bool"}, {"pruneFails", "Bool"}},
+		init:   []string{"let mut err : Nat := 0", "let mut phases : List String := []"},
+		atoms:  map[string]string{"err != nil": "err != 0", "ctx.BlockHeight()": "height"},
+		skip:   []string{"ctx := sdk.UnwrapSDKContext(ct)", "am.keeper.Logger(ctx).Info(\"abci-validator-size\", abci.ValidatorUpdates{}.Len())"},
+		stmts: map[string][]string{
+			"err := am.keeper.CheckAndProcessEstimatedMessages(ctx)": {"phases := phases ++ [\"estimates\"]", "err := if estimateFails then 1 else 0"},
+			"err := am.keeper.CheckAndProcessAttestedMessages(ctx)":  {"phases := phases ++ [\"attestations\"]", "err := if attestFails then 1 else 0"},
+			"err := am.keeper.PruneOldMessages(ctx, 300)":            {"phases := phases ++ [\"prune older than 300\"]", "err := if pruneFails then 1 else 0"}},
+		returns: map[string]string{"return nil": ".returned phases"}},
+	{key: "x/valset.AppModule.EndBlock", lean: "valsetEndBlock", ret: "EndBlockOutcome",
+		params: []trParam{{"height", "Int"}, {"buildFails", "Bool"}, {"graceFails", "Bool"}, {"sweepFails", "Bool"}},
+		init:   []string{"let mut err : Nat := 0", "let mut phases : List String := []"},
+		atoms:  map[string]string{"err != nil": "err != 0", "sdkCtx.BlockHeight()": "height"},
+		skip:   []string{"sdkCtx := sdk.UnwrapSDKContext(ctx)"},
+		stmts: map[string][]string{
+			"_, err := am.keeper.TriggerSnapshotBuild(sdkCtx)": {"phases := phases ++ [\"snapshot build\"]", "err := if buildFails then 1 else 0"},
+			"err := am.keeper.UpdateGracePeriod(sdkCtx)":       {"phases := phases ++ [\"grace periods\"]", "err := if graceFails then 1 else 0"},
+			"err := am.keeper.JailInactiveValidators(sdkCtx)":  {"phases := phases ++ [\"inactivity sweep\"]", "err := if sweepFails then 1 else 0"}},
+		returns: map[string]string{"return nil": ".returned phases", "return err": ".failed phases"}},
 	{key: "x/metrix/keeper.calculateUptime", lean: "calculateUptimeGuard", ret: "Bool",
 		params: []trParam{{"window", "Int"}, {"missed", "Int"}},
 		// only the guard is arithmetic; the division goes through big.Float (modelled in C14's score arithmetic)
@@ -1011,11 +1033,24 @@ func (c *trCtx) block(stmts []ast.Stmt, ind string, out *[]string) {
 			}
 		case *ast.IfStmt:
 			if s.Init != nil {
-				c.fail("if with init: %s", src(s.Init))
-				continue
+				// `if err := CALL; cond { … }`: the initialiser must be a configured effectful statement; its stand-in runs first
+				// (the variable it defines is scoped to the `if` in Go; the stand-in assigns the function-wide one, which no
+				// translated function reads afterwards without assigning it again)
+				repl, ok := c.conf.stmts[src(s.Init)]
+				if !ok {
+					c.fail("if with init: %s", src(s.Init))
+					continue
+				}
+				for _, l := range repl {
+					emit(l)
+				}
 			}
 			emit("if " + c.expr(s.Cond) + " then")
+			nBefore := len(*out)
 			c.block(s.Body.List, ind+"  ", out)
+			if len(*out) == nBefore {
+				emit("  pure ()") // nothing but logging inside
+			}
 			if s.Else != nil {
 				emit("else")
 				switch el := s.Else.(type) {
@@ -1257,7 +1292,12 @@ func (c *trCtx) block(stmts []ast.Stmt, ind string, out *[]string) {
 }
 
 // statements that only log or emit an event
+var logCallRe = regexp.MustCompile(`^([A-Za-z_][A-Za-z0-9_]*\.)*Logger\([A-Za-z0-9_]*\)\.`)
+
 func isLogOrEvent(text string) bool {
+	if logCallRe.MatchString(text) {
+		return true
+	}
 	for _, p := range []string{"k.Logger(ctx).", "logger.", "logger(ctx).", "liblog.FromSDKLogger(", "keeperutil.EmitEvent(", "sdkCtx.EventManager().EmitEvent"} {
 		if strings.HasPrefix(text, p) {
 			return true
